@@ -1255,7 +1255,18 @@ class XsdElement(XsdComponent, ParticleMixin,
 
         :returns: `True` if there is no inconsistency between the particles, `False` otherwise,
         """
-        return self.name != other.name or self.type is other.type
+        if self.name == other.name:
+            return self.type is other.type
+
+        # A model that contains a declaration contains implicitly also
+        # the members of its substitution group
+        for e in self.iter_substitutes():
+            if e.name == other.name:
+                return e.type is other.type
+        for e in other.iter_substitutes():
+            if e.name == self.name:
+                return e.type is self.type
+        return True
 
     def is_single(self) -> bool:
         if self.parent is None:
